@@ -94,9 +94,19 @@ def run(tier="quick"):
     if ncfg_ is not None:
         flow.forward(ncfg_, frozenset(), nullness.transfer, refine=nullness.refine, visit=_vis_matched)
 
+    handed_on = []
+
     def justified(n, state):
         for x in walk(n):
             if x.get("k") == "ref" and x.get("d") in just_vars:
+                return True
+        if n.get("k") == "assign" and n.get("op") == "+=":
+            r_ = X.strip(n["ch"][1])
+            g_ = u.functions.get(X.callee_name(r_) or "") if r_ is not None and r_.get("k") == "call" else None
+            if g_ is not None and g_.body is not None and g_.static and any((X.strip(a_) or {}).get("d") in cursors for a_ in r_["ch"][1:]):
+                # the distance was measured by a scan helper of the same file that was handed the cursor: whether every byte it
+                # counted was tested lies in the helper, which this rule does not follow (undecided, noted - not a violation)
+                handed_on.append("%s (%s)" % (g_.name, f.loc(n)))
                 return True
         if n["i"] in matched_at:
             # ... for the skips in the main loop's own body only: a nested loop (the table search itself, the collection of the
@@ -126,6 +136,8 @@ def run(tier="quick"):
         chk.ob("N1", f.name, "%s:%s" % (kind, canon(f, n)[:40]), False, loc=f.loc(n), detail="%s: %s" % (f.name, msg))
     if not viol:
         chk.ob("N1", f.name, "cursor", True, loc=f.loc(f.body), proof="%d cursor reads/advances, each covered by a non-NUL test of the bytes before it" % nchecked)
+    if handed_on:
+        chk.note("N1 undecided: the cursor is moved by the result of a scan helper that is not followed: " + ", ".join(sorted(set(handed_on))))
     # ---- V1 write-or-retract over j
     # the result buffer: the local array that is copied back into the argument at the end; the main loop: the outermost
     # `for` whose body switches on the input byte; the output index: the integer its increment clause steps
